@@ -467,3 +467,20 @@ Proof.
   rewrite (firstn_app_exact' 8 (le_encode 8 c) r (le_encode_length 8 c)).
   rewrite le_decode_encode; [reflexivity|exact Hc].
 Qed.
+
+(* ---------------------------------------------------------------- normalize_key *)
+(* with a collision-free hash that outputs 32 bytes, two operator keys derive the same AEAD key only if they are
+   equal or one of them is the (32-byte) digest of the other *)
+Theorem normalize_key_injective : forall (sha256 : bytes -> bytes) k1 k2,
+  (forall x y, sha256 x = sha256 y -> x = y) ->
+  normalize_key_with sha256 k1 = normalize_key_with sha256 k2 ->
+  k1 = k2 \/ (blen k1 = KEY_LEN /\ blen k2 <> KEY_LEN /\ k1 = sha256 k2)
+          \/ (blen k2 = KEY_LEN /\ blen k1 <> KEY_LEN /\ k2 = sha256 k1).
+Proof.
+  intros sha256 k1 k2 Hinj H. unfold normalize_key_with in H.
+  destruct (blen k1 =? KEY_LEN) eqn:E1; destruct (blen k2 =? KEY_LEN) eqn:E2.
+  - left. exact H.
+  - right. left. apply N.eqb_eq in E1. apply N.eqb_neq in E2. auto.
+  - right. right. apply N.eqb_eq in E2. apply N.eqb_neq in E1. auto.
+  - left. apply Hinj. exact H.
+Qed.
